@@ -33,6 +33,11 @@ type IntervalAwareForceTicker struct {
 
 	wg   sync.WaitGroup
 	quit chan struct{}
+
+	// resetMtx serialises ResetWithInterval and Stop. Both close the quit
+	// channel and replace or stop the internal clock ticker, and they are
+	// called from different goroutines of a connection.
+	resetMtx sync.Mutex
 }
 
 // A compile-time constraint to ensure IntervalAwareForceTicker satisfies the
@@ -129,6 +134,9 @@ func (t *IntervalAwareForceTicker) Pause() {
 //
 // NOTE: Part of the Ticker interface.
 func (t *IntervalAwareForceTicker) Stop() {
+	t.resetMtx.Lock()
+	defer t.resetMtx.Unlock()
+
 	t.Pause()
 	t.ticker.Stop()
 	close(t.quit)
@@ -138,6 +146,9 @@ func (t *IntervalAwareForceTicker) Stop() {
 // ResetWithInterval restarts the ticker with the given interval, causing the
 // next clock tick to occur in the given interval.
 func (t *IntervalAwareForceTicker) ResetWithInterval(newInterval time.Duration) {
+	t.resetMtx.Lock()
+	defer t.resetMtx.Unlock()
+
 	// Shutdown the internal clock ticker without changing isActive.
 	t.ticker.Stop()
 	close(t.quit)
